@@ -32,11 +32,18 @@ func runSSolve(o *Out, _ *rand.Rand, thorough bool) {
 		restart := 5 + rng.Intn(40)
 		iters := 150 + rng.Intn(500)
 		c.Solve = &CSolve{Runs: restart, Iters: iters}
+		if ci%4 == 3 {
+			// the caller cancels from the handler of the k-th improvement: the context is done between the improving operator
+			// and the next one of the same iteration — what was found must still be delivered (Starts holds k)
+			c.Solve.Starts = 1 + rng.Intn(2)
+			c.feature("cancelled-at-an-improvement")
+		}
 		if replayFile != "" {
 			c = loadReplayCase(replayFile)
 			restart, iters = c.Solve.Runs, c.Solve.Iters
 			ncases = 1
 		}
+		cancelAt := c.Solve.Starts
 		if !o.BeginCase(ci, c) {
 			continue
 		}
@@ -71,10 +78,20 @@ func runSSolve(o *Out, _ *rand.Rand, thorough bool) {
 			}
 			lines = append(lines, "emit op "+rat(info.Solver().WorkSolution().Score())+" "+ci)
 		})
+		ctx, cancel := solveCtx(60 * time.Second)
 		solver.SolveEvents().NewBestSolution.Register(func(info nextroute.SolveInformation) {
 			announced = append(announced, info.Solver().BestSolution().Score())
+			if cancelAt > 0 && len(announced) == cancelAt {
+				o.Count("cancelled-at-an-improvement")
+				cancel()
+			}
 		})
-		ctx, cancel := solveCtx(60 * time.Second)
+		solver.SolveEvents().ContextDone.Register(func(info nextroute.SolveInformation) {
+			o.Count("ended-by-context-done")
+			if len(o.Meta.Notes) < 5 {
+				o.Meta.Notes = append(o.Meta.Notes, fmt.Sprintf("context done in iteration %d of %d", info.Iteration(), iters))
+			}
+		})
 		ch, err := solver.Solve(ctx, nextroute.SolveOptions{Iterations: iters, Duration: 30 * time.Second}, sol)
 		if err != nil {
 			cancel()
